@@ -109,12 +109,26 @@ func (p *TMultiUDPTransport) Write(buff []byte) (int, error) {
 	return n, nil
 }
 
-// Flush flushes the write buffer of the underlying transports
-func (p *TMultiUDPTransport) Flush() error {
+// Discard drops what has been written to the underlying transports since the
+// last Flush without sending it.
+func (p *TMultiUDPTransport) Discard() {
 	for _, trans := range p.transports {
-		if err := trans.Flush(); err != nil {
-			return err
+		if d, ok := trans.(interface{ Discard() }); ok {
+			d.Discard()
 		}
 	}
-	return nil
+}
+
+// Flush flushes the write buffer of the underlying transports
+func (p *TMultiUDPTransport) Flush() error {
+	// n.b. Every transport is flushed, also after one of them failed, so that
+	//      they all stay at the same message boundary; the first error is
+	//      returned.
+	var firstErr error
+	for _, trans := range p.transports {
+		if err := trans.Flush(); err != nil && firstErr == nil {
+			firstErr = err
+		}
+	}
+	return firstErr
 }
